@@ -172,7 +172,7 @@ def replay(beh, idx, full=True, repeat=True):
           viol.append(('C05', key, f'use {i + 1} {uses[i]}: counter {int(first["out"][i][0])}, the equivalent plain code gives {int(plain["out"][j][0])}'))
         via = uses[i][1]
         # (keys drawn by plain code inside a Python loop are not drawn inside nn.while_loop, so later counters differ)
-        no_while_before = not any(v.startswith('while') for _, v in uses[:i])
+        no_while_before = not any(v.startswith('while') or v == 'remat_p' for _, v in uses[:i])      # (nor a stream-subset lift)
         if j is not None and via in ('remat', 'mapvars', 'remat_f', 'mapvars_f') and no_while_before and not np.array_equal(plain['out'][j], first['out'][i]):
           only_key = np.array_equal(plain['out'][j][:3], first['out'][i][:3])
           viol.append(('C05', key + (':share_scope-attr-child-rng-path' if f15 and only_key else ''),
